@@ -269,6 +269,24 @@ func TestC04Restart(t *testing.T) {
 			f.tp.Events().OnTransferInitiated(chid)
 			settle()
 		}
+		// in half of the cases a later voucher of ANOTHER registered type has been exchanged meanwhile
+		// (accepted): the restart must still be decided by the validator of the request's voucher type
+		laterType := ""
+		if r.Intn(2) == 0 {
+			for _, t := range regTypes {
+				if t != string(v.Type) {
+					laterType = t
+				}
+			}
+			lv := gen.Voucher(r, laterType)
+			vr, err := message.VoucherRequest(tid, &lv)
+			if err == nil {
+				w, _ := doubles.Reencode(vr)
+				f.net.Deliver(other, w)
+				settle()
+				c.Count("later_voucher_of_other_type", 1)
+			}
+		}
 		if mode == 2 {
 			f = f.reopen(withoutTypes())
 		}
@@ -359,6 +377,8 @@ func TestC04Restart(t *testing.T) {
 			if mode == 0 {
 				if got := len(f.val.Calls()) - nval; got != 1 {
 					c.Violation("C04", fmt.Sprintf("restart-validator-calls %d", got), "restart request consulted the validator %d times", got)
+				} else if vc := f.val.Calls()[nval]; vc.RegisteredFor != string(v.Type) {
+					c.Violation("C04", "restart-consulted-validator-of-other-type", "restart request with a %s voucher was decided by the validator registered for %s (a %q voucher had been exchanged later)", v.Type, vc.RegisteredFor, laterType)
 				}
 			}
 			if !accepted {
